@@ -4,27 +4,55 @@ consumes that `Result`.
 Scans all non-test Rust sources of the two crates. An *error-returning function* is a `fn` whose
 return type is `Result<_, X::Error>` (X a type parameter or Self: the draw target's error type).
 Every call site of such a function (by name) inside any function body is classified by what
-happens to its value:
+happens to its value. A site is classified as *propagating* only if, whenever the call returns
+`Err(e)`, the enclosing function returns `Err(e)` (the same value) at once, i.e. without evaluating
+any other call site first:
 
-  q          followed by `?` (possibly after `.map(..)`, `.map_err(..)`, `.and_then(..)`)
+  q          followed by `?` (possibly after `.map(..)`, which cannot touch an `Err`), in a function
+             that itself returns the target's error, not inside a closure
   tail       value of the enclosing function body (directly, or as the value of a tail `if/else`
              / `match` arm / block), and the enclosing function is itself error-returning
-  ret        `return <call>;`
-  bound_q    `let x = <call>;` with a later `x?` or `x` in tail position
-  tryclosure tail of a closure passed to `try_for_each`/`try_fold` whose own result is q/tail/ret
-  discarded  `;` statement, `let _ =`, `.ok()`, `.unwrap_or*`, `.is_ok()`, `.is_err()`, `.err()`,
-             closure passed to a non-`try_` adaptor, argument of another call, ... (anything else)
+  ret        `return <call>;` (same conditions as q)
+  bound_q    `let x = <call>;` whose FIRST later mention of `x` is `x?` (or `x` as the value of the
+             function body) in the same block at the same nesting depth (so it is reached
+             unconditionally), with no other call site, `?`, `return`, `break` or `continue` in between
+  match_ret  `match <call> { Err(e) => return Err(e), .. }` (the only arm mentioning `Err`, no arm
+             before it that could match an `Err`) and `if let Err(e) = <call> { return Err(e); }`
+  tryclosure value (tail, `?` or `return`) of a closure passed to `try_for_each`/`try_fold` whose
+             own result is q/tail/ret/...
 
-Output: lean/EG/Generated/DrawSites.lean with one record per site. The theorem
-`all_sites_propagate` (EG/Props/C04.lean) is decided over this table, so a dropped `?`, a
-`let _ =` or an `.ok()` changes the generated file and breaks the theorem.
+Everything else does not propagate:
+
+  discarded  a form known to drop, defer or change the error: `;` statement, `let _ =`, `.ok()`,
+             `.unwrap_or*`, `.is_ok()`, `.err()`, `.or_else(..)`, `.map_err(..)`, `.and_then(..)`,
+             `.and(..)`, closure passed to a non-`try_` adaptor, argument of another call, a bound
+             variable that is used late / conditionally / never, `?` in a closure or in a function
+             with another error type, ...
+  unknown    a form this scan does not understand (counts as not propagating)
+
+Output: lean/EG/Generated/DrawSites.lean with one record per site, plus the number of call
+expressions per file found by an INDEPENDENT textual scan (`textual_scan`, line oriented, no
+function/bracket parsing). `all_sites_propagate` and `prefix_law_sites` (EG/Props/C04.lean) are
+decided over this table, so a dropped `?`, a `let _ =`, an `.ok()` or a deferred `?` changes the
+generated file and breaks the theorems; `sites_match_textual_scan` breaks when the classifier's
+parser does not see a call expression that the textual scan sees (or vice versa).
+
+`generate()` (run by tools/translate.py on every ./check) first runs `selftest()` on the snippets
+in tools/tests/drawsites_cases.rs (every function there carries its expected kinds in a
+`// expect:` comment); `python3 tools/tr_drawsites.py --selftest` runs it alone.
 """
 import os
 import re
 
-DISCARD_METHODS = {"ok", "unwrap_or", "unwrap_or_default", "unwrap_or_else", "is_ok", "is_err", "err", "unwrap", "expect", "unwrap_unchecked"}
-PASS_METHODS = {"map", "map_err", "and_then", "or_else", "and"}
+# methods that certainly drop, replace or defer the error
+DISCARD_METHODS = {"ok", "unwrap_or", "unwrap_or_default", "unwrap_or_else", "is_ok", "is_err", "err", "unwrap", "expect",
+                   "unwrap_unchecked", "or_else", "or", "map_err", "and_then", "and", "map_or", "map_or_else", "iter",
+                   "into_iter", "unwrap_err", "expect_err", "is_ok_and", "is_err_and", "inspect_err"}
+# methods that hand an `Err` on unchanged and make no call when the value is an `Err`
+# (`map`'s closure only runs on `Ok`; a call site inside that closure is classified on its own)
+PASS_METHODS = {"map"}
 TRY_ADAPTORS = {"try_for_each", "try_fold"}
+PROPAGATING = ("q", "tail", "ret", "bound_q", "match_ret", "tryclosure")
 
 
 def blank_comments_and_strings(src):
@@ -187,46 +215,212 @@ def stmt_start(s, i, lo):
     return lo
 
 
+CLOSURE_HEAD = r"(?:\bmove\s*)?\|[^|]*\|\s*(?:->\s*[^{]+)?"
+
+
+def innermost_closure(s, fn, pos):
+    """the opener (`{` of a block-bodied closure, or `(` of the call a brace-less closure is an
+    argument of) of the innermost closure whose body contains position pos; None if pos is
+    directly in the function's own body. Returns (opener index, paren?)."""
+    i = pos
+    while True:
+        op = enclosing_open(s, i, fn.open)
+        if op is None or op == fn.open:
+            return None
+        if s[op] == "{":
+            header = s[stmt_start(s, op, fn.open + 1): op]
+            if re.search(CLOSURE_HEAD + r"$", header):
+                return (op, False)
+        elif s[op] == "(":
+            seg = s[op + 1: pos]
+            depth = 0
+            last_comma = -1
+            for k, ch in enumerate(seg):
+                if ch in "([{":
+                    depth += 1
+                elif ch in ")]}":
+                    depth -= 1
+                elif ch == "," and depth == 0:
+                    last_comma = k
+            if re.match(r"\s*" + CLOSURE_HEAD, seg[last_comma + 1:]):
+                return (op, True)
+        i = op
+
+
+def exits_function(s, fn, expr_start, how, depth_guard):
+    """`?` / `return` at expr_start: leaves the function with the error only if it is not inside a
+    closure and the function returns the target's error type"""
+    clo = innermost_closure(s, fn, expr_start)
+    if clo is not None:
+        op, paren = clo
+        k, d = classify_closure(s, fn, op, match_close(s, op), depth_guard, paren=paren)
+        if k == "tryclosure":
+            return ("tryclosure", how + " in closure of " + d)
+        return ("discarded", how + " inside a closure: " + d)
+    if not fn.err:
+        return ("discarded", how + " in fn " + fn.name + " which does not return the target's error")
+    return None
+
+
+def split_arms(body):
+    """[(pattern, expression)] of a match body, or None if it cannot be split"""
+    arms = []
+    i, n = 0, len(body)
+    while True:
+        while i < n and (body[i].isspace() or body[i] == ","):
+            i += 1
+        if i >= n:
+            return arms
+        j, depth = i, 0
+        while j < n:
+            ch = body[j]
+            if ch in "([{":
+                depth += 1
+            elif ch in ")]}":
+                depth -= 1
+            elif depth == 0 and body.startswith("=>", j):
+                break
+            j += 1
+        if j >= n:
+            return None
+        pattern = body[i:j].strip()
+        j += 2
+        while j < n and body[j].isspace():
+            j += 1
+        if j < n and body[j] == "{":
+            c = match_close(body, j)
+            expr = body[j: c + 1]
+            i = c + 1
+            k = i
+            while k < n and body[k].isspace():
+                k += 1
+            if k < n and body[k] in ".?":
+                return None  # `{ .. }.method()` arm: not understood
+        else:
+            k, depth = j, 0
+            while k < n:
+                ch = body[k]
+                if ch in "([{":
+                    depth += 1
+                elif ch in ")]}":
+                    depth -= 1
+                elif ch == "," and depth == 0:
+                    break
+                k += 1
+            expr = body[j:k].strip()
+            i = k + 1
+        arms.append((pattern, expr))
+
+
+def classify_scrutinee(s, fn, expr_start, brace, depth_guard):
+    """the call is followed by `{`: scrutinee of `match` / `if let` / `while let` ..."""
+    st = stmt_start(s, expr_start, fn.open + 1)
+    head = s[st:expr_start]
+    close = match_close(s, brace)
+    body = s[brace + 1: close]
+    m = re.search(r"\bif\s+let\s+Err\s*\(\s*(\w+)\s*\)\s*=\s*$", head)
+    if m:
+        if re.match(r"^\s*return\s+Err\s*\(\s*" + re.escape(m.group(1)) + r"\s*\)\s*;?\s*$", body):
+            bad = exits_function(s, fn, expr_start, "return", depth_guard)
+            return bad if bad else ("match_ret", "if let Err(" + m.group(1) + ")")
+        return ("discarded", "if let Err(..) whose block is not `return Err(..)`")
+    if re.search(r"\bmatch\s*$", head):
+        arms = split_arms(body)
+        if arms is None:
+            return ("unknown", "match arms not understood")
+        err_arms = [k for k, (pattern, _) in enumerate(arms) if re.search(r"\bErr\b", pattern)]
+        if len(err_arms) != 1:
+            return ("discarded", "match with %d arms mentioning Err" % len(err_arms))
+        k = err_arms[0]
+        pattern, expr = arms[k]
+        m = re.match(r"^Err\s*\(\s*(\w+)\s*\)$", pattern)
+        if not m or m.group(1) == "_":
+            return ("discarded", "Err arm pattern `" + pattern[:30] + "`")
+        e = re.escape(m.group(1))
+        if not (re.match(r"^return\s+Err\s*\(\s*" + e + r"\s*\)$", expr)
+                or re.match(r"^\{\s*return\s+Err\s*\(\s*" + e + r"\s*\)\s*;?\s*\}$", expr)):
+            return ("discarded", "Err arm is not `return Err(" + m.group(1) + ")`")
+        for pattern2, _ in arms[:k]:
+            if not re.match(r"^Ok\s*\(", pattern2):
+                return ("discarded", "arm `" + pattern2[:30] + "` before the Err arm")
+        bad = exits_function(s, fn, expr_start, "return", depth_guard)
+        return bad if bad else ("match_ret", "match")
+    if re.search(r"\b(if|while)\s+let\b[^;{}]*=\s*$", head):
+        return ("discarded", "scrutinee of " + " ".join(head.split())[-40:])
+    return ("unknown", "followed by a block")
+
+
+def classify_binding(s, fn, var, semi, expr_start, depth_guard):
+    """`let var = <call>;` (semi = index of the `;`)"""
+    if var.startswith("_"):
+        return ("discarded", "let " + var)
+    blk = enclosing_open(s, expr_start, fn.open)
+    if blk is None or s[blk] != "{":
+        return ("unknown", "let " + var + " not directly in a block")
+    blk_close = match_close(s, blk)
+    region = s[semi + 1: blk_close]
+    mu = re.search(r"\b" + re.escape(var) + r"\b", region)
+    if not mu:
+        return ("discarded", "let " + var + " never used in its block")
+    between = region[: mu.start()]
+    depth = 0
+    for ch in between:
+        if ch in "([{":
+            depth += 1
+        elif ch in ")]}":
+            depth -= 1
+    if depth != 0:
+        return ("discarded", "let " + var + " first used inside a nested block or call (not unconditional)")
+    if fn.pat.search(between):
+        return ("discarded", "let " + var + ": another call site before its first use")
+    mx = re.search(r"\?|\b(return|break|continue)\b", between)
+    if mx:
+        return ("discarded", "let " + var + ": `" + mx.group(0) + "` before its first use")
+    after = region[mu.end():]
+    if re.match(r"\s*\?", after):
+        bad = exits_function(s, fn, expr_start, "?", depth_guard)
+        return bad if bad else ("bound_q", var)
+    if after.strip() == "" and blk == fn.open:
+        return ("bound_q", var + " (tail)") if fn.err else ("discarded", "tail of non-error fn " + fn.name)
+    return ("discarded", "let " + var + ": first use is neither `" + var + "?` nor the function's value")
+
+
 def classify(s, fn, expr_start, e, depth_guard=0):
     """how the value of the expression s[expr_start:e] is consumed; returns (kind, detail)"""
     if depth_guard > 12:
-        return ("discarded", "too-deep")
+        return ("unknown", "too-deep")
     n = len(s)
     i = e
     while i < n and s[i].isspace():
         i += 1
     c = s[i] if i < n else ""
     if c == "?":
-        return ("q", "")
+        bad = exits_function(s, fn, expr_start, "?", depth_guard)
+        return bad if bad else ("q", "")
     if c == ".":
         m = re.match(r"\.\s*(\w+)\s*(::\s*<[^>]*>)?\s*\(", s[i:])
         if not m:
-            return ("discarded", "field-access")
+            return ("unknown", "field-access")
         name = m.group(1)
         close = match_close(s, i + m.end() - 1)
         if name in DISCARD_METHODS:
             return ("discarded", "." + name + "()")
         if name in PASS_METHODS:
             return classify(s, fn, expr_start, close + 1, depth_guard + 1)
-        return ("discarded", "method ." + name)
+        return ("unknown", "method ." + name)
+    if c == "{":
+        return classify_scrutinee(s, fn, expr_start, i, depth_guard)
     if c == ";":
         st = stmt_start(s, expr_start, fn.open + 1)
         head = s[st:expr_start].strip()
-        if head.startswith("return"):
-            return ("ret", "") if fn.err else ("discarded", "return in non-error fn")
+        if re.match(r"return\b", head):
+            if head != "return":
+                return ("unknown", "statement: " + head[:30])
+            bad = exits_function(s, fn, expr_start, "return", depth_guard)
+            return bad if bad else ("ret", "")
         m = re.match(r"let\s+(mut\s+)?(\w+)\s*(:[^=]*)?=\s*$", head)
         if m:
-            var = m.group(2)
-            if var.startswith("_"):
-                return ("discarded", "let " + var)
-            rest = s[i: fn.close]
-            if re.search(r"\b" + re.escape(var) + r"\s*\?", rest):
-                return ("bound_q", var)
-            # variable returned in tail position
-            mm = re.search(r"\b" + re.escape(var) + r"\s*\}\s*$", s[i: fn.close + 1])
-            if mm and fn.err:
-                return ("bound_q", var + " (tail)")
-            return ("discarded", "let " + var + " never propagated")
+            return classify_binding(s, fn, m.group(2), i, expr_start, depth_guard)
         if head == "":
             return ("discarded", "expression statement")
         return ("discarded", "statement: " + head[:30])
@@ -234,24 +428,24 @@ def classify(s, fn, expr_start, e, depth_guard=0):
         # value of an enclosing construct
         op = enclosing_open(s, expr_start, fn.open)
         if op is None:
-            return ("discarded", "no enclosing block")
+            return ("unknown", "no enclosing block")
         if s[op] == "{":
             if op == fn.open:
                 if c != "}":
-                    return ("discarded", "not at end of fn body")
+                    return ("unknown", "not at end of fn body")
                 return ("tail", "") if fn.err else ("discarded", "tail of non-error fn " + fn.name)
             close = match_close(s, op)
             header_start = stmt_start(s, op, fn.open + 1)
             header = s[header_start:op].strip()
             # closure with a block body: `|args| {`
-            if re.search(r"\|[^|]*\|\s*$", header) or re.search(r"\bmove\s*\|[^|]*\|\s*$", header):
+            if re.search(CLOSURE_HEAD + r"$", header):
                 return classify_closure(s, fn, op, close, depth_guard)
             if c == "," or (c == "}" and re.search(r"\bmatch\b", header) and not re.search(r"=>\s*$", header)):
                 # match arm value: the value of the whole match expression
                 if re.search(r"\bmatch\b", header):
                     mstart = header_start + re.search(r"\bmatch\b", s[header_start:op]).start()
                     return classify(s, fn, mstart, close + 1, depth_guard + 1)
-                return ("discarded", "comma in block")
+                return ("unknown", "comma in block")
             # tail of a block: if / else / arm block / plain block / loop
             if re.search(r"\b(for|while|loop)\b[^{}]*$", header):
                 return ("discarded", "value of a loop body")
@@ -264,7 +458,7 @@ def classify(s, fn, expr_start, e, depth_guard=0):
                     mm = re.search(r"\bmatch\b", mh)
                     if mm:
                         return classify(s, fn, mh_start + mm.start(), match_close(s, mop) + 1, depth_guard + 1)
-                return ("discarded", "arm of unknown construct")
+                return ("unknown", "arm of unknown construct")
             if re.search(r"\b(if|else)\b", header) or header == "" or header.endswith("unsafe"):
                 # find the end of the whole if / else chain
                 end = close + 1
@@ -273,14 +467,23 @@ def classify(s, fn, expr_start, e, depth_guard=0):
                     if not m:
                         break
                     end = match_close(s, end + m.end() - 1) + 1
-                # and its start (walk back over `} else if .. {` chains)
-                start = header_start
-                hm = re.search(r"\bif\b|\belse\b", s[header_start:op])
+                # and its start (walk back over `} else if .. {` chains to the first `if`)
+                start, hdr, hdr_end = header_start, header, op
+                while re.match(r"else\b", hdr):
+                    j = start - 1
+                    while j > fn.open and s[j].isspace():
+                        j -= 1
+                    if s[j] != "}":
+                        break
+                    hdr_end = match_open(s, j)
+                    start = stmt_start(s, hdr_end, fn.open + 1)
+                    hdr = s[start:hdr_end].strip()
+                hm = re.search(r"\bif\b|\belse\b", s[start:hdr_end])
                 if hm:
-                    start = header_start + hm.start()
+                    start = start + hm.start()
                 # `let x = if ..` / `return if ..`: start of statement handles via ';' branch later
                 return classify(s, fn, start, end, depth_guard + 1)
-            return ("discarded", "block header: " + header[-30:])
+            return ("unknown", "block header: " + header[-30:])
         if s[op] == "(":
             # argument of a call: closure without braces?
             arg_start = op + 1
@@ -296,11 +499,11 @@ def classify(s, fn, expr_start, e, depth_guard=0):
                 elif ch == "," and depth == 0:
                     last_comma = k
             arg_head = seg[last_comma + 1:].strip()
-            if re.match(r"(move\s*)?\|[^|]*\|\s*$", arg_head):
+            if re.match(CLOSURE_HEAD + r"$", arg_head):
                 return classify_closure(s, fn, op, match_close(s, op), depth_guard, paren=True)
             return ("discarded", "argument of a call")
         return ("discarded", "inside [ ]")
-    return ("discarded", "followed by " + repr(s[i:i + 12]))
+    return ("unknown", "followed by " + repr(s[i:i + 12]))
 
 
 def classify_closure(s, fn, op, close, depth_guard, paren=False):
@@ -318,26 +521,32 @@ def classify_closure(s, fn, op, close, depth_guard, paren=False):
         head = s[st:call_open]
         mm = re.match(r"\s*(return\s+|let\s+(mut\s+)?\w+\s*(:[^=]*)?=\s*)?", head)
         k, d = classify(s, fn, st + (mm.end() if mm else 0), match_close(s, call_open) + 1, depth_guard + 1)
-        if k in ("q", "tail", "ret", "bound_q", "tryclosure"):
+        if k in PROPAGATING:
             return ("tryclosure", name)
         return ("discarded", name + " result " + k + " " + d)
     return ("discarded", "closure passed to ." + name)
 
 
-def scan(repo):
+def source_files(repo):
     files = []
     for root in ("src", "core/src"):
         for dp, dn, fn in os.walk(os.path.join(repo, root)):
             for f in fn:
-                if f.endswith(".rs"):
+                if f.endswith(".rs") and os.sep + "generated" + os.sep not in os.path.join(dp, f):
                     files.append(os.path.join(dp, f))
     files.sort()
+    return files
+
+
+def site_pattern(names):
+    return re.compile(r"(?<![\w])(?:\.\s*)?\b(" + "|".join(sorted(map(re.escape, names))) + r")\s*(::\s*<[^>]*>)?\s*\(")
+
+
+def scan(repo):
+    files = source_files(repo)
     parsed = {}
     err_names = set()
-    all_fn_names_nonerr = {}
     for f in files:
-        if os.sep + "generated" + os.sep in f:
-            continue
         src = open(f).read()
         s = strip_tests(blank_comments_and_strings(src))
         fns = find_fns(s, f)
@@ -345,25 +554,21 @@ def scan(repo):
         for fn in fns:
             if fn.err:
                 err_names.add(fn.name)
-            else:
-                all_fn_names_nonerr.setdefault(fn.name, 0)
-                all_fn_names_nonerr[fn.name] += 1
-    # names that are also used by functions that do not return the target's error would be ambiguous
     sites = []
     if not err_names:
         raise ValueError("no error-returning function found: the scan no longer understands the sources")
-    pat = re.compile(r"(?<![\w])(?:\.\s*)?\b(" + "|".join(sorted(map(re.escape, err_names))) + r")\s*(::\s*<[^>]*>)?\s*\(")
+    pat = site_pattern(err_names)
     for f, (s, fns) in parsed.items():
         rel = os.path.relpath(f, repo)
         for fn in fns:
             if fn.open is None:
                 continue
-            # innermost function only: skip fns that contain other fn bodies? (nested fns are rare) — take calls
+            fn.pat = pat
             body = s[fn.open: fn.close + 1]
             for m in pat.finditer(body):
                 start = fn.open + m.start()
                 name = m.group(1)
-                # skip definitions (`fn name(`) and paths like `Self::name` used as values
+                # skip definitions (`fn name(`)
                 if re.search(r"\bfn\s+$", s[max(0, start - 8): start + (1 if s[start] == '.' else 0)]):
                     continue
                 pre = s[max(0, start - 4): start]
@@ -410,19 +615,122 @@ def scan(repo):
     return sites, sorted(err_names)
 
 
+def textual_scan(repo):
+    """INDEPENDENT count of call expressions, per file: line oriented, shares no code with
+    find_fns / classify / blank_comments_and_strings / strip_tests (no function bodies, no bracket
+    matching). Names: every `fn NAME .. -> Result<.., X::Error>` signature found by one regular
+    expression over the text; calls: every `NAME(` that is not the definition `fn NAME(`, anywhere
+    in the file (also outside function bodies, e.g. in macro definitions), outside `//` comments,
+    one-line string literals, `/* */` comments and `#[cfg(test)] mod .. { }` (skipped by counting
+    the braces of the lines). Returns ({relative file: count}, names)."""
+    texts = {}
+    for f in source_files(repo):
+        text = re.sub(r"/\*.*?\*/", lambda m: re.sub(r"[^\n]", " ", m.group(0)), open(f).read(), flags=re.S)
+        out = []
+        skipping = None  # None, "armed" (saw #[cfg(test)], waiting for the mod's `{`) or the brace depth inside it
+        for ln in text.split("\n"):
+            ln = re.sub(r'"(?:[^"\\]|\\.)*"', '""', ln)
+            ln = re.sub(r"'(?:[^'\\]|\\.)'", "' '", ln)
+            ln = ln.split("//")[0]
+            if skipping is None and re.match(r"\s*#\[cfg\(test\)\]\s*$", ln):
+                skipping = "armed"
+                out.append("")
+                continue
+            if skipping == "armed":
+                if ln.strip() == "":
+                    out.append("")
+                    continue
+                if not re.match(r"\s*(pub(\([^)]*\))?\s+)?mod\s+\w+\s*\{", ln):
+                    skipping = None  # #[cfg(test)] on something that is not a module: keep it (as the classifier does)
+                else:
+                    skipping = 0
+            if isinstance(skipping, int):
+                skipping += ln.count("{") - ln.count("}")
+                out.append("")
+                if skipping <= 0:
+                    skipping = None
+                continue
+            out.append(ln)
+        texts[os.path.relpath(f, repo)] = "\n".join(out)
+    names = set()
+    for text in texts.values():
+        for m in re.finditer(r"\bfn\s+(\w+)\b([^{;]*)", text):
+            if re.search(r"->\s*Result\s*<.*::\s*Error\s*>", m.group(2), re.S) and m.group(1) not in ("try_from", "try_into"):
+                names.add(m.group(1))
+    if not names:
+        raise ValueError("textual scan: no error-returning function found")
+    call = re.compile(r"(?<![\w])(" + "|".join(sorted(map(re.escape, names))) + r")\s*(?:::\s*<[^>]*>)?\s*\(")
+    counts = {}
+    for rel, text in texts.items():
+        n = 0
+        for m in call.finditer(text):
+            if re.search(r"\bfn\s+$", text[max(0, m.start() - 12): m.start()]):
+                continue
+            n += 1
+        if n:
+            counts[rel] = n
+    return counts, sorted(names)
+
+
+# ---------------------------------------------------------------------------------------------
+# self-test: tools/tests/drawsites_cases.rs
+
+def selftest():
+    """Every `fn` of tools/tests/drawsites_cases.rs is preceded by `// expect: kind kind ...` (the
+    expected kinds of its call sites in source order). Returns the list of mismatches."""
+    import shutil, tempfile
+    here = os.path.dirname(os.path.abspath(__file__))
+    case_file = os.path.join(here, "tests", "drawsites_cases.rs")
+    src = open(case_file).read()
+    expected = {}
+    for m in re.finditer(r"//\s*expect:([^\n]*)\n(?:\s*//[^\n]*\n)*\s*(?:pub\s+)?fn\s+(\w+)", src):
+        expected[m.group(2)] = m.group(1).split()
+    if len(expected) < 12:
+        raise ValueError("drawsites self-test: case file not understood")
+    tmp = tempfile.mkdtemp(prefix="drawsites_selftest_")
+    try:
+        os.makedirs(os.path.join(tmp, "src"))
+        shutil.copy(case_file, os.path.join(tmp, "src", "cases.rs"))
+        sites, _ = scan(tmp)
+        counts, _ = textual_scan(tmp)
+    finally:
+        shutil.rmtree(tmp, ignore_errors=True)
+    got = {}
+    for st in sites:
+        got.setdefault(st["fn"], []).append(st["kind"])
+    bad = []
+    for name, exp in expected.items():
+        if got.get(name, []) != exp:
+            bad.append(f"{name}: expected {exp}, classified {got.get(name, [])}")
+    for name in got:
+        if name not in expected:
+            bad.append(f"{name}: no `// expect:` line")
+    m = re.search(r"//\s*expect-textual-count:\s*(\d+)", src)
+    if not m or counts.get(os.path.join("src", "cases.rs")) != int(m.group(1)):
+        bad.append(f"textual scan counted {counts.get(os.path.join('src', 'cases.rs'))} call expressions, case file says {m.group(1) if m else '?'}")
+    if len(sites) != sum(counts.values()):
+        bad.append(f"classifier saw {len(sites)} sites, textual scan {sum(counts.values())}")
+    return bad
+
+
 def lean_str(x):
     return '"' + x.replace("\\", "\\\\").replace('"', '\\"') + '"'
 
 
 def generate(repo):
+    bad = selftest()
+    if bad:
+        raise ValueError("tr_drawsites self-test failed: " + "; ".join(bad[:4]))
     sites, names = scan(repo)
     if len(sites) < 20:
         raise ValueError(f"only {len(sites)} call sites found: the scan no longer understands the sources")
+    textual, tnames = textual_scan(repo)
     lines = [
         "/- GENERATED by tools/tr_drawsites.py from /repo's sources on every run. Do not edit. -/",
         "namespace EG.Generated",
         "",
-        "inductive SiteKind | q | tail | ret | boundQ | tryClosure | discarded",
+        "/-- how a call site consumes the `Result` (see tools/tr_drawsites.py for the exact rules) -/",
+        "inductive SiteKind | q | tail | ret | boundQ | matchRet | tryClosure | discarded | unknown",
         "  deriving DecidableEq, Repr",
         "",
         "structure DrawSite where",
@@ -432,33 +740,61 @@ def generate(repo):
         "  callee : String",
         "  kind : SiteKind",
         "  detail : String",
-        "  deriving Repr",
+        "  deriving DecidableEq, Repr",
         "",
-        "/-- every call site of a function returning the draw target's error, outside tests -/",
+        "/-- every call site of a function returning the draw target's error, outside tests, as seen by",
+        "the classifier (function bodies, bracket matching) -/",
         "def drawSites : List DrawSite := [",
     ]
-    kmap = {"q": ".q", "tail": ".tail", "ret": ".ret", "bound_q": ".boundQ", "tryclosure": ".tryClosure", "discarded": ".discarded"}
+    kmap = {"q": ".q", "tail": ".tail", "ret": ".ret", "bound_q": ".boundQ", "match_ret": ".matchRet", "tryclosure": ".tryClosure",
+            "discarded": ".discarded", "unknown": ".unknown"}
     rows = []
     for st in sites:
         rows.append(f"  ⟨{lean_str(st['file'])}, {st['line']}, {lean_str(st['fn'])}, {lean_str(st['callee'])}, {kmap[st['kind']]}, {lean_str(st['detail'])}⟩")
     lines.append(",\n".join(rows))
     lines.append("]")
     lines.append("")
-    lines.append(f"/-- number of call sites the translator saw in the source -/")
-    lines.append(f"def drawSitesSeen : Nat := {len(sites)}")
+    lines.append("/-- number of call expressions per file found by the independent line-oriented textual scan")
+    lines.append("(`textual_scan` in tools/tr_drawsites.py: no function or bracket parsing) -/")
+    lines.append("def textualCallCounts : List (String × Nat) := [")
+    lines.append(",\n".join(f"  ({lean_str(f)}, {n})" for f, n in sorted(textual.items())))
+    lines.append("]")
     lines.append("")
     lines.append("def errorReturningFns : List String := [" + ", ".join(lean_str(n) for n in names) + "]")
+    lines.append("")
+    lines.append("/-- the error-returning function names as found by the textual scan's own regular expression -/")
+    lines.append("def textualErrorReturningFns : List String := [" + ", ".join(lean_str(n) for n in tnames) + "]")
     lines.append("")
     lines.append("end EG.Generated")
     counts = {}
     for st in sites:
         counts[st["kind"]] = counts.get(st["kind"], 0) + 1
-    return {"DrawSites.lean": "\n".join(lines) + "\n"}, {"sites": len(sites), "kinds": counts, "error_returning_fns": len(names)}
+    return {"DrawSites.lean": "\n".join(lines) + "\n"}, {"sites": len(sites), "kinds": counts, "error_returning_fns": len(names),
+                                                          "textual_call_expressions": sum(textual.values()), "selftest": "ok"}
 
 
 if __name__ == "__main__":
-    import json, sys
-    sites, names = scan(sys.argv[1] if len(sys.argv) > 1 else "/repo")
+    import sys
+    if "--selftest" in sys.argv:
+        bad = selftest()
+        for b in bad:
+            print("FAIL", b)
+        print("tr_drawsites self-test:", "FAILED" if bad else "ok")
+        sys.exit(1 if bad else 0)
+    repo = sys.argv[1] if len(sys.argv) > 1 else "/repo"
+    sites, names = scan(repo)
     for st in sites:
         print(f"{st['kind']:10} {st['file']}:{st['line']} {st['fn']} -> {st['callee']}  {st['detail']}")
     print(len(sites), "sites;", len(names), "error-returning fns:", names)
+    counts = {}
+    for st in sites:
+        counts[st["kind"]] = counts.get(st["kind"], 0) + 1
+    print("per kind:", counts)
+    textual, tnames = textual_scan(repo)
+    print("textual scan:", sum(textual.values()), "call expressions;", len(tnames), "names", "(same names)" if tnames == names else "(DIFFERENT names: %s)" % sorted(set(tnames) ^ set(names)))
+    per = {}
+    for st in sites:
+        per[st["file"]] = per.get(st["file"], 0) + 1
+    for f in sorted(set(per) | set(textual)):
+        if per.get(f, 0) != textual.get(f, 0):
+            print("  MISMATCH", f, "classifier", per.get(f, 0), "textual", textual.get(f, 0))
